@@ -43,16 +43,18 @@ fn agg_tag(text: &str, r: &BatchResult) -> String {
 // ---------------------------------------------------------------------------------------------------------------
 // typed stream: table, statements as data, reference
 
-pub const C04_DEF: &str = "CREATE TABLE t(line = '^([a-z]+)?;(-?[0-9]+)?;(-?[0-9]+)?;([^;]+)?;([^;]+)?;(true|false)?;(?:([0-9]{4})-([0-9]{2})-([0-9]{2}))?$', line[1] => k TEXT, line[2] => v INT, line[3] => w INT, line[4] => r REAL, line[5] => s TEXT, line[6] => b BOOLEAN, line[7], line[8], line[9] => ts TIMESTAMP);";
+pub const C04_DEF: &str = "CREATE TABLE t(line = '^([a-z]+)?;(-?[0-9]+)?;(-?[0-9]+)?;([^;]+)?;([^;]+)?;(true|false)?;([0-9]+:[0-9]{2}:[0-9]{2})?;(?:([0-9]{4})-([0-9]{2})-([0-9]{2}) ([0-9]{2}):([0-9]{2}):([0-9]{2}))?$', line[1] => k TEXT, line[2] => v INT, line[3] => w INT, line[4] => r REAL, line[5] => s TEXT, line[6] => b BOOLEAN, line[7] => iv INTERVAL, line[8], line[9], line[10], line[11], line[12], line[13] => ts TIMESTAMP);";
 
-const COLS: &[&str] = &["k", "v", "w", "r", "s", "b", "ts"];
+const COLS: &[&str] = &["k", "v", "w", "r", "s", "b", "iv", "ts"];
+const NCOLS: usize = 8;
 const K: usize = 0;
 const V: usize = 1;
 const W: usize = 2;
 const R: usize = 3;
 const S: usize = 4;
 const B: usize = 5;
-const TS: usize = 6;
+const IV: usize = 6;
+const TS: usize = 7;
 
 #[derive(Clone, Debug, PartialEq)]
 enum AggK {
@@ -122,16 +124,55 @@ enum Item {
 #[derive(Clone, Debug)]
 enum Pred { VPos, WNotNull, KNotA, BTrue }
 
+/// HAVING: a boolean combination of comparisons of aggregates with INT constants
 #[derive(Clone, Debug)]
-struct TypedQuery {
+enum Having {
+    Cmp(AggK, &'static str, i64),
+    And(Box<Having>, Box<Having>),
+    Or(Box<Having>, Box<Having>),
+    Not(Box<Having>),
+}
+
+impl Having {
+    fn sql(&self) -> String {
+        match self {
+            Having::Cmp(a, op, c) => format!("{} {} {}", a.sql(), op, c),
+            Having::And(l, r) => format!("({} AND {})", l.sql(), r.sql()),
+            Having::Or(l, r) => format!("({} OR {})", l.sql(), r.sql()),
+            Having::Not(x) => format!("(NOT {})", x.sql()),
+        }
+    }
+    fn aggs<'a>(&'a self, out: &mut Vec<&'a AggK>) {
+        match self {
+            Having::Cmp(a, _, _) => out.push(a),
+            Having::And(l, r) | Having::Or(l, r) => { l.aggs(out); r.aggs(out); }
+            Having::Not(x) => x.aggs(out),
+        }
+    }
+    /// the condition on one group: a comparison involving NULL does not hold
+    fn holds(&self, g: &[&Vec<Value>]) -> bool {
+        match self {
+            Having::Cmp(a, op, c) => match ref_aggregate(a, g) {
+                Value::Int(x) => match *op { ">" => x > *c, ">=" => x >= *c, "<" => x < *c, "<=" => x <= *c, "=" => x == *c, _ => x != *c },
+                _ => false,
+            },
+            Having::And(l, r) => l.holds(g) && r.holds(g),
+            Having::Or(l, r) => l.holds(g) || r.holds(g),
+            Having::Not(x) => !x.holds(g),
+        }
+    }
+}
+
+#[derive(Clone, Debug)]
+pub struct TypedQuery {
     group: Vec<usize>,
     items: Vec<Item>,
     wher: Option<Pred>,
-    having: Option<(AggK, &'static str, i64)>,
+    having: Option<Having>,
 }
 
 impl TypedQuery {
-    fn sql(&self) -> String {
+    pub fn sql(&self) -> String {
         let items: Vec<String> = self.items.iter().map(|it| match it {
             Item::Key(i) => COLS[self.group[*i]].to_owned(),
             Item::Agg(a, None) => a.sql(),
@@ -144,32 +185,35 @@ impl TypedQuery {
         if !self.group.is_empty() {
             q.push_str(&format!(" GROUP BY {}", self.group.iter().map(|c| COLS[*c]).collect::<Vec<_>>().join(", ")));
         }
-        if let Some((a, op, c)) = &self.having {
-            q.push_str(&format!(" HAVING {} {} {}", a.sql(), op, c));
+        if let Some(h) = &self.having {
+            q.push_str(&format!(" HAVING {}", h.sql()));
         }
         q
     }
 }
 
+/// every aggregate kind over every argument type it accepts: INT, REAL, INTERVAL for SUM/AVG; INT, REAL for
+/// STDDEV/VARIANCE (of intervals the model has no arithmetic: rarely, and then the case is skipped); any comparable
+/// type for MIN/MAX/PERCENTILE/COUNT(DISTINCT)/COUNT/ARRAY_AGG; BOOLEAN for BOOL_AND/OR; TEXT for STRING_AGG
 fn gen_agg(rng: &mut Rng) -> AggK {
-    match rng.below(17) {
+    match rng.below(18) {
         0 => AggK::CountStar,
-        1 | 2 => AggK::Count(*rng.pick(&[K, V, W, R, S, B, TS])),
-        3 => AggK::CountDistinct(*rng.pick(&[K, V, W, S, TS])),
-        4 | 5 => AggK::Sum(*rng.pick(&[V, W, R])),
-        6 | 7 => AggK::Min(*rng.pick(&[K, S, TS, B, V, R, TS, K])),
-        8 | 9 => AggK::Max(*rng.pick(&[K, S, TS, B, W, R, TS, S])),
-        10 => AggK::Avg(*rng.pick(&[V, W, R])),
-        11 => AggK::Stddev(*rng.pick(&[V, W, R]), rng.chance(1, 2)),
-        12 | 13 => AggK::Percentile(*rng.pick(&[V, K, R, TS, W]), *rng.pick(&["0.0", "0.5", "0.99", "1.0"])),
-        14 => if rng.chance(1, 2) { AggK::BoolAnd(B) } else { AggK::BoolOr(B) },
-        15 => AggK::ArrayAgg(*rng.pick(&[V, K, TS, B])),
+        1 | 2 => AggK::Count(*rng.pick(&[K, V, W, R, S, B, IV, TS])),
+        3 | 4 => AggK::CountDistinct(*rng.pick(&[K, V, W, S, IV, TS, V, B])),
+        5 | 6 => AggK::Sum(*rng.pick(&[V, W, R, IV, IV])),
+        7 | 8 => AggK::Min(*rng.pick(&[K, S, TS, B, V, R, IV, W])),
+        9 | 10 => AggK::Max(*rng.pick(&[K, S, TS, B, W, R, IV, V])),
+        11 => AggK::Avg(*rng.pick(&[V, W, R, IV, IV])),
+        12 => AggK::Stddev(*rng.pick(&[V, W, R, V, W, R, V, W, R, IV]), rng.chance(1, 2)),
+        13 | 14 => AggK::Percentile(*rng.pick(&[V, K, R, TS, W, IV, S]), *rng.pick(&["0.0", "0.5", "0.99", "1.0"])),
+        15 => if rng.chance(1, 2) { AggK::BoolAnd(B) } else { AggK::BoolOr(B) },
+        16 => AggK::ArrayAgg(*rng.pick(&[V, K, TS, B, IV])),
         _ => AggK::StringAgg(*rng.pick(&[K, S]), *rng.pick(&[",", "", "; "])),
     }
 }
 
-fn gen_typed_query(rng: &mut Rng) -> TypedQuery {
-    let group: Vec<usize> = match rng.below(6) { 0 => vec![], 1 | 2 => vec![K], 3 => vec![W], 4 => vec![K, W], _ => vec![*rng.pick(&[B, TS, S])] };
+pub fn gen_typed_query(rng: &mut Rng) -> TypedQuery {
+    let group: Vec<usize> = match rng.below(6) { 0 => vec![], 1 | 2 => vec![K], 3 => vec![W], 4 => vec![K, W], _ => vec![*rng.pick(&[B, TS, S, IV])] };
     let mut items = Vec::new();
     for _ in 0..rng.below(4) + 1 {
         if !group.is_empty() && rng.chance(1, 4) {
@@ -181,41 +225,81 @@ fn gen_typed_query(rng: &mut Rng) -> TypedQuery {
         }
     }
     let wher = if rng.chance(1, 3) { Some(rng.pick(&[Pred::VPos, Pred::WNotNull, Pred::KNotA, Pred::BTrue]).clone()) } else { None };
-    let having = if rng.chance(2, 5) {
-        // an aggregate of the select list, or a hidden one that appears only in HAVING
+    let having = if rng.chance(1, 2) {
+        // aggregates of the select list, or hidden ones that appear only in HAVING; the same aggregate is deliberately
+        // used more than once (range conditions, alternatives), thresholds lie inside the data range
         let from_list: Vec<AggK> = items.iter().filter_map(|it| match it { Item::Agg(a, _) if a.int_valued() => Some(a.clone()), _ => None }).collect();
-        let a = if !from_list.is_empty() && rng.chance(1, 2) { rng.pick(&from_list).clone() } else {
-            rng.pick(&[AggK::CountStar, AggK::Count(V), AggK::Count(S), AggK::Sum(V), AggK::Max(W), AggK::Min(V), AggK::CountDistinct(K)]).clone()
+        let pick = |rng: &mut Rng| -> AggK {
+            if !from_list.is_empty() && rng.chance(1, 2) { rng.pick(&from_list).clone() } else {
+                rng.pick(&[AggK::CountStar, AggK::CountStar, AggK::Count(V), AggK::Count(S), AggK::Sum(V), AggK::Sum(W), AggK::Max(W), AggK::Min(V), AggK::CountDistinct(K), AggK::Avg(V)]).clone()
+            }
         };
-        Some((a, *rng.pick(&[">", ">=", "<", "=", "!="]), *rng.pick(&[0i64, 1, 2, 5])))
+        let cmp = |rng: &mut Rng, a: &AggK| Having::Cmp(a.clone(), *rng.pick(&[">", ">=", "<", "<=", "=", "!="]), *rng.pick(&[0i64, 1, 2, 3, 5, 10]));
+        let a = pick(rng);
+        let b = pick(rng);
+        Some(match rng.below(8) {
+            0 | 1 => cmp(rng, &a),
+            2 => { let lo = rng.below(3) as i64; Having::And(Box::new(Having::Cmp(a.clone(), ">=", lo)), Box::new(Having::Cmp(a.clone(), "<=", lo + 1 + rng.below(3) as i64))) }
+            3 => Having::And(Box::new(cmp(rng, &a)), Box::new(cmp(rng, &b))),
+            4 => Having::Or(Box::new(cmp(rng, &a)), Box::new(cmp(rng, &a))),
+            5 => Having::Not(Box::new(cmp(rng, &a))),
+            6 => Having::And(Box::new(Having::And(Box::new(cmp(rng, &a)), Box::new(cmp(rng, &a)))), Box::new(cmp(rng, &b))),
+            _ => Having::And(Box::new(Having::Or(Box::new(cmp(rng, &a)), Box::new(cmp(rng, &b)))), Box::new(cmp(rng, &a))),
+        })
     } else { None };
     TypedQuery { group, items, wher, having }
 }
 
-/// input biased towards groups in which a column is NULL on every row, and towards single-row groups
-fn gen_typed_input(rng: &mut Rng) -> Vec<String> {
+/// input biased towards groups in which a column is NULL on every row, towards single-row groups, towards NULLs in the
+/// first / middle / last row of a group, and (`large`) towards 40-150 lines concentrated in one or two groups whose
+/// arguments come from pools of 17-65 distinct values with many repetitions (small-buffer sizes 8, 16, 32, 64 in mind)
+pub fn gen_typed_input(rng: &mut Rng, large: bool) -> Vec<String> {
     let keys: &[&str] = &["a", "b", "c", "ab", ""];
+    let nkeys = if large { 1 + rng.below(2) } else { 5 };
     // per (key, column) NULL probability in percent
-    let mut nullp = [[0u64; 7]; 5];
-    for k in 0..5 { for c in 0..7 { nullp[k][c] = *rng.pick(&[0u64, 0, 0, 30, 100, 100]); } }
-    let n = match rng.below(5) { 0 => rng.below(3), 1 => rng.below(6), _ => rng.below(24) };
-    let single = rng.below(5); // this key gets at most one row
+    let mut nullp = [[0u64; NCOLS]; 5];
+    for k in 0..5 { for c in 0..NCOLS { nullp[k][c] = if large { *rng.pick(&[0u64, 0, 0, 10, 30]) } else { *rng.pick(&[0u64, 0, 0, 30, 100, 100]) }; } }
+    let n = if large { 40 + rng.below(111) } else { match rng.below(5) { 0 => rng.below(3), 1 => rng.below(6), _ => rng.below(24) } };
+    let pool = if large { *rng.pick(&[17usize, 18, 20, 30, 33, 65]) } else { 26 };
+    let single = if large { 99 } else { rng.below(5) }; // this key gets at most one row
     let mut seen_single = false;
-    let mut lines = Vec::new();
+    // rows as fields, `None` = a line that is not a row of the table
+    let mut rows: Vec<Result<(usize, Vec<String>), String>> = Vec::new();
     for _ in 0..n {
-        if rng.chance(1, 15) { lines.push((*rng.pick(&["", "garbage", ";;;;;;", "A;1;2;3;4;;"])).to_owned()); continue; }
-        let ki = rng.below(5);
+        if rng.chance(1, if large { 60 } else { 15 }) { rows.push(Err((*rng.pick(&["", "garbage", ";;;;;;;", "A;1;2;3;4;;;"])).to_owned())); continue; }
+        let ki = rng.below(nkeys);
         if ki == single { if seen_single { continue; } seen_single = true; }
-        let f = |rng: &mut Rng, c: usize, s: String| if rng.chance(nullp[ki][c], 100) { String::new() } else { s };
-        let v = rng.range(-5, 20).to_string();
-        let w = rng.range(-2, 3).to_string();
-        let r = (*rng.pick(&["0.5", "1.5", "-2.25", "100", "3", "8", "0.25"])).to_owned();
-        let s = (*rng.pick(&["x", "y", "hello", "q q", "10"])).to_owned();
+        let x = rng.below(pool) as i64; // index into the value pools
+        let v = (x - 5).to_string();
+        let w = if large { ((x * 7) % pool as i64 - 3).to_string() } else { rng.range(-2, 3).to_string() };
+        let r = if large { format!("{}", (x as f64) * 0.25 - 2.0) } else { (*rng.pick(&["0.5", "1.5", "-2.25", "100", "3", "8", "0.25"])).to_owned() };
+        let s = if large { format!("s{}", x) } else { (*rng.pick(&["x", "y", "hello", "q q", "10"])).to_owned() };
         let b = (*rng.pick(&["true", "false"])).to_owned();
-        let ts = format!("{}-{:02}-{:02}", rng.pick(&[1999, 2020, 2021]), rng.range(1, 12), rng.range(1, 28));
-        lines.push(format!("{};{};{};{};{};{};{}", keys[ki], f(rng, V, v), f(rng, W, w), f(rng, R, r), f(rng, S, s), f(rng, B, b), f(rng, TS, ts)));
+        let iv = if large { format!("{}:{:02}:{:02}", x / 7, (x * 13) % 60, (x * 29) % 60) } else { (*rng.pick(&["0:00:10", "1:02:03", "0:30:00", "2:00:00", "10:00:01", "0:00:00"])).to_owned() };
+        let y = rng.below(if large { pool } else { 6 }) as i64;
+        let ts = format!("{}-{:02}-{:02} {:02}:{:02}:{:02}", 1999 + y % 3 * 10, 1 + y % 12, 1 + (y * 5) % 28, y % 24, (y * 7) % 60, (y * 11) % 60);
+        let mut f: Vec<String> = vec![keys[ki].to_owned(), v, w, r, s, b, iv, ts];
+        for c in 1..NCOLS { if rng.chance(nullp[ki][c], 100) { f[c] = String::new(); } }
+        rows.push(Ok((ki, f)));
     }
-    lines
+    // a NULL argument in the first, a middle or the last row of a group
+    for _ in 0..rng.below(3) {
+        let ki = rng.below(nkeys);
+        let c = 1 + rng.below(NCOLS - 1);
+        let idx: Vec<usize> = rows.iter().enumerate().filter(|(_, r)| matches!(r, Ok((k, _)) if *k == ki)).map(|(i, _)| i).collect();
+        if idx.is_empty() { continue; }
+        let at = match rng.below(3) { 0 => idx[0], 1 => idx[idx.len() / 2], _ => idx[idx.len() - 1] };
+        if let Ok((_, f)) = &mut rows[at] { f[c] = String::new(); }
+    }
+    // arrival orders: as generated, or sorted / reversed by the argument pools
+    if large {
+        match rng.below(4) {
+            0 => rows.sort_by_key(|r| match r { Ok((_, f)) => f[V].parse::<i64>().unwrap_or(i64::MIN), Err(_) => i64::MIN }),
+            1 => { rows.sort_by_key(|r| match r { Ok((_, f)) => f[V].parse::<i64>().unwrap_or(i64::MIN), Err(_) => i64::MIN }); rows.reverse(); }
+            _ => {}
+        }
+    }
+    rows.into_iter().map(|r| match r { Ok((_, f)) => f.join(";"), Err(l) => l }).collect()
 }
 
 // ---------- the reference (written from the property sentence) ----------
@@ -231,6 +315,7 @@ fn cmp_val(a: &Value, b: &Value) -> Ordering {
         (Value::Bool(x), Value::Bool(y)) => x.cmp(y),
         (Value::String(x), Value::String(y)) => x.as_bytes().cmp(y.as_bytes()),
         (Value::Timestamp(x), Value::Timestamp(y)) => x.cmp(y),
+        (Value::Interval(x), Value::Interval(y)) => x.cmp(y),
         _ => Ordering::Equal,
     }
 }
@@ -244,7 +329,7 @@ fn cmp_key(a: &[Value], b: &[Value]) -> Ordering {
 }
 
 fn col_type(c: usize) -> ValueType {
-    match c { K | S => ValueType::String, V | W => ValueType::Int, R => ValueType::Float, B => ValueType::Bool, _ => ValueType::Timestamp }
+    match c { K | S => ValueType::String, V | W => ValueType::Int, R => ValueType::Float, B => ValueType::Bool, IV => ValueType::Interval, _ => ValueType::Timestamp }
 }
 
 /// the aggregate over the argument values of one group (arrival order, NULLs included); `None` = the sentence does not
@@ -264,6 +349,7 @@ fn ref_aggregate(a: &AggK, rows: &[&Vec<Value>]) -> Value {
             if nn.is_empty() { return Value::Null; }
             match &nn[0] {
                 Value::Int(_) => Value::Int(nn.iter().map(|v| if let Value::Int(x) = v { *x } else { 0 }).sum()),
+                Value::Interval(_) => Value::Interval(nn.iter().fold(sqlgrep::model::IntervalType::zero(), |acc, v| if let Value::Interval(x) = v { acc + *x } else { acc })),
                 _ => Value::Float(Float(nn.iter().map(|v| if let Value::Float(x) = v { x.0 } else { 0.0 }).sum())),
             }
         }
@@ -272,6 +358,8 @@ fn ref_aggregate(a: &AggK, rows: &[&Vec<Value>]) -> Value {
             match &nn[0] {
                 // the INT average truncates (the sentence is silent; as the code does)
                 Value::Int(_) => Value::Int(nn.iter().map(|v| if let Value::Int(x) = v { *x } else { 0 }).sum::<i64>() / nn.len() as i64),
+                // the INTERVAL average is the total divided by the count, truncated to the nanosecond
+                Value::Interval(_) => Value::Interval(nn.iter().fold(sqlgrep::model::IntervalType::zero(), |acc, v| if let Value::Interval(x) = v { acc + *x } else { acc }) / nn.len() as i32),
                 _ => Value::Float(Float(nn.iter().map(|v| if let Value::Float(x) = v { x.0 } else { 0.0 }).sum::<f64>() / nn.len() as f64)),
             }
         }
@@ -314,6 +402,9 @@ fn apply_wrap(v: Value, wrap: &Option<(&'static str, i64)>) -> Value {
 }
 
 struct RefOut {
+    /// the statement takes STDDEV / VARIANCE of intervals: the sentence does not say what that is (the code reports an
+    /// overflow or no value), so nothing is demanded
+    undecided: bool,
     rows: Vec<Vec<Value>>,
     /// a group exists in which no aggregate of the statement creates an entry (finding D10)
     d10: bool,
@@ -345,19 +436,16 @@ fn reference(q: &TypedQuery, admitted: &[Vec<Value>]) -> RefOut {
         if !keys.iter().any(|x| cmp_key(x, &k) == Ordering::Equal) { keys.push(k); }
     }
     keys.sort_by(|a, b| cmp_key(a, b));
-    let mut out = RefOut { rows: Vec::new(), d10: false, d15: false };
+    let mut out = RefOut { undecided: false, rows: Vec::new(), d10: false, d15: false };
     let mut all_aggs: Vec<&AggK> = q.items.iter().filter_map(|it| match it { Item::Agg(a, _) => Some(a), _ => None }).collect();
-    if let Some((a, _, _)) = &q.having { all_aggs.push(a); }
+    if let Some(h) = &q.having { h.aggs(&mut all_aggs); }
+    out.undecided = all_aggs.iter().any(|a| matches!(a, AggK::Stddev(c, _) if *c == IV));
     for k in &keys {
         let g: Vec<&Vec<Value>> = passing.iter().filter(|r| cmp_key(&key_of(r), k) == Ordering::Equal).cloned().collect();
         if !all_aggs.iter().any(|a| creates_entry(a, &g)) { out.d10 = true; }
         for a in &all_aggs { if let AggK::ArrayAgg(c) = a { if g[0][*c] == Value::Null { out.d15 = true; } } }
-        if let Some((a, op, c)) = &q.having {
-            let keep = match ref_aggregate(a, &g) {
-                Value::Int(x) => match *op { ">" => x > *c, ">=" => x >= *c, "<" => x < *c, "=" => x == *c, _ => x != *c },
-                _ => false, // a comparison involving NULL does not hold
-            };
-            if !keep { continue; }
+        if let Some(h) = &q.having {
+            if !h.holds(&g) { continue; }
         }
         out.rows.push(q.items.iter().map(|it| match it {
             Item::Key(i) => k[*i].clone(),
@@ -409,7 +497,8 @@ pub fn run(p: &Params) -> Run {
     for _ in 0..m {
         let q = gen_typed_query(&mut rng);
         let text = q.sql();
-        let lines = gen_typed_input(&mut rng);
+        let large = rng.chance(1, 12);
+        let lines = gen_typed_input(&mut rng, large);
         let desc = format!("defs={} query={} input={:?}", C04_DEF, text, lines);
         let prepared = match prepare(C04_DEF, &text) { Ok(p) => p, Err(e) => { run.count(&format!("typed-rejected:{}", e.split(':').next().unwrap_or(""))); continue; } };
         let admitted: Vec<Vec<Value>> = lines.iter().map(|l| table.extract(l).columns).filter(|r| r.iter().any(|v| *v != Value::Null)).collect();
@@ -417,6 +506,7 @@ pub fn run(p: &Params) -> Run {
         let got = run_engine_batch(C04_DEF, &text, &lines);
         run.oracle_checks += 1;
         let (outcome, nrows) = match &got {
+            _ if expected.undecided => ("undecided", 0),
             RowsOutcome::Rows { rows, .. } => {
                 if *rows != expected.rows {
                     let class = if expected.d15 { "D15:array_agg-first-value-null" } else if expected.d10 { "D10:group-without-value-entry" } else { "aggregate-table-differs-from-reference" };
